@@ -152,6 +152,10 @@ def selftest(ctx):
     noparen = [T("TkName", "f"), T("TkString", "'s'", "s")]
     semi = [T("TkName", "x"), T("TkAssign", "="), T("TkName", "y"), T("TkSemicolon", ";"), T("TkLeftParen", "("), T("TkName", "f"),
             T("TkRightParen", ")"), T("TkLeftParen", "("), T("TkRightParen", ")")]
+    C = lambda k, t: {"k": k, "t": t, "v": "", "c": 1}
+    semi_c = semi[:4] + [C("#Comment", "Comment(DocDescription())"), C("TkNormalStart", "--"), C("TkDocDetail", " c"),
+                         C("#Comment", "Comment()"), C("TkLongCommentStart", "--[["), C("TkDocDetail", " d "),
+                         C("TkLongCommentEnd", "]]")] + semi[4:]
     cfg = lambda q="Preserve", p="Preserve": {"output": {"quote_style": q, "single_arg_call_parens": p}}
     cover = lambda rid, s, e, rs, re, none=False, inErr=False: {
         "id": rid, "kind": "cover", "cfg": model_cfg({}), "inErr": inErr, "outErr": 0, "same": True, "in": [], "out": [],
@@ -171,6 +175,9 @@ def selftest(ctx):
         (idem_run(12, False), "REJ"), (idem_run(13, True), "ACC"),
         (fmt_run(14, cfg(), semi, semi[:3] + semi[4:], False, 0, False), "REJ"),      # hazard semicolon dropped
         (fmt_run(15, cfg(), semi[:4], semi[:3], False, 0, False), "ACC"),             # ordinary semicolon dropped
+        # a comment between the `;` and the `(` changes nothing: the semicolon still separates two statements
+        (fmt_run(21, cfg(), semi_c, semi_c[:3] + semi_c[4:], False, 0, False), "REJ"),
+        (fmt_run(22, cfg(), semi_c, copy.deepcopy(semi_c), False, 0, True), "ACC"),
         (cover(16, 7, 12, 6, 15), "ACC"), (cover(17, 7, 12, 6, 11), "REJ"), (cover(18, 7, 12, 6, 25), "REJ"),
         (cover(19, 7, 12, 6, 15, inErr=True), "REJ"), (cover(20, 7, 12, 0, 0, none=True), "ACC"),
     ]
